@@ -113,6 +113,18 @@ fn cells() -> Vec<Cell> {
     for (offset, len) in [(0xFFF0u16, 16usize), (0xFFFF, 1), (0xFFFF, 0), (0xFF01, 255), (0xFFEF, 16), (0xFFF1, 16), (0xFF00, 255), (0x8000, 16), (0x7FFF, 2), (0x00FF, 1), (0x0100, 255), (0x0000, 0), (0x0000, 255), (0x0003, 16)] {
         send(&format!("SendData[{}]@{:04X}", len, offset), RefMsg::Data { offset, data: vec![0xA5; len] }, true);
     }
+    // ... nor on what the chunk happens to contain: offsets and bytes equal to the two in-progress state codes (0x13, 0x11),
+    // to a message type, to the pause lengths
+    for (offset, data) in [(0x0013u16, vec![0x13u8]), (0x1300, vec![0x13, 0x13]), (0x0011, vec![0x11; 16]), (0x0004, vec![0x04, 0x13]), (0x001E, vec![30]), (0x0064, vec![100, 0])] {
+        send(&format!("SendData@{:04X}[{}]", offset, crate::util::hex(&data)), RefMsg::Data { offset, data }, true);
+    }
+    // ... and messages that are NOT data chunks stay unpaced whatever numbers they carry
+    send("DataChunksSent(0)", RefMsg::Count(0), false);
+    send("DataChunksSent(0x0013)", RefMsg::Count(0x0013), false);
+    send("Hello(0)", RefMsg::Hello(0), false);
+    send("Goodbye(0x0013)", RefMsg::Goodbye(0x0013), false);
+    send("QueryState(0x1300)", RefMsg::Query(0x1300), false);
+    send("Unknown(13:13:13)", RefMsg::Unknown { addr: 0x0013, ty: 0x13, data: vec![0x13] }, false);
     send("DataChunksSent", RefMsg::Count(3), false);
     send("Hello", RefMsg::Hello(3), false);
     send("QueryState", RefMsg::Query(3), false);
@@ -588,7 +600,7 @@ pub fn run(ctx: &Ctx) -> Outcome {
     }
     let n_send_unpaced = all.iter().filter(|c| !c.send_paced).count() as u64;
     let floors = vec![
-        floor("paced send trials (data chunks of 4 lengths; 14 further (offset, length) pairs at the ends of the offset range and past 0xFFFF)", report.get("paced_send_trials") >= 18 * trials as u64, report.get("paced_send_trials")),
+        floor("paced send trials (data chunks of 4 lengths; 14 further (offset, length) pairs at the ends of the offset range and past 0xFFFF; 6 chunks whose offset and bytes equal state codes, a message type, the pause lengths)", report.get("paced_send_trials") >= 24 * trials as u64, report.get("paced_send_trials")),
         floor("paced receive trials (8 request kinds x 2 in-progress states x own/foreign)", report.get("paced_recv_trials") >= 32 * trials as u64, report.get("paced_recv_trials")),
         floor("data chunk followed by a failing flush (3 error kinds)", report.get("flush_fault_trials") >= 9, report.get("flush_fault_trials")),
         floor("sessions: paced chunks, paced replies and unpaced pairs all observed mid-session", report.get("session_paced_chunks") >= 50 && report.get("session_paced_replies") >= 20 && report.get("session_pairs_judged") >= 10, format!("{} chunks, {} replies, {} pairs", report.get("session_paced_chunks"), report.get("session_paced_replies"), report.get("session_pairs_judged"))),
